@@ -47,6 +47,12 @@ Theorem C01_model_rejects_missing_module :
 Proof. exact refuted_F01f. Qed.
 Print Assumptions C01_model_rejects_missing_module.
 
+(* F20e: Enum refuses _sunder_ member names *)
+Theorem C01_refuted_F20e :
+  c_static builtin_names w_F20e = false /\ c_parses w_F20e = true /\ failed_with (ex w_F20e [n_p; n_ev]) EValue.
+Proof. exact refuted_F20e. Qed.
+Print Assumptions C01_refuted_F20e.
+
 Theorem C01_guard_nonvacuous :
   pkg_ok builtin_names w_good = true /\
   forallb (fun m => match ex w_good (path m) with Ok _ => true | Fail _ => false end) w_good = true.
